@@ -91,4 +91,9 @@ META = {
         text="Exploration: generated block histories over the crosschain, erc20, precompile, gov and migrate code paths with real FinalizeBlock + Commit; replicas must agree on every observable of every block.",
         note="Detection of a dependence on map order or time is probabilistic per replica; the evidence reports replicas, blocks and events compared.",
     ),
+    "C18": dict(
+        technique="fault-injection property-based testing (rapid): one generated fault point per case at a tolerated-failure boundary (event handler, inbound bridge call follow-up with hand-assembled callees and Runner scripts, passed proposal), checked by store-dump differentials and holdings / supply / storage equality on the real keepers",
+        text="Exploration: generated fault points (which boundary, which token / message position, how the callee fails, at which gas limit, who is refunded) against the designated outcome of the failure: attestation bookkeeping only, refund record only, failed proposal only.",
+        note="The IBC boundary is exercised by the C19 check.",
+    ),
 }
